@@ -156,6 +156,8 @@ class Gen:
             return (self.r.choice(["BranchDebug", "BranchEdit", "BranchVariation"]), (("int", self.r.randint(0, 1)),))
         if self.r.random() < 0.5:
             return ("BranchExecuteSub", (n,))
+        if self.r.random() < self.c.pos_p:
+            return ("BranchSum", (self.pos(), ("int", self.r.randint(0, 10)), n))
         return ("BranchSum", (v, ("int", self.r.randint(0, 10)), n))
 
     def swhdr(self):
@@ -176,6 +178,8 @@ class Gen:
         if c == 6:
             return (self.r.choice(["message_SwitchMenu", "message_Menu", "ProcessSpecial", "SwitchDirection"]),
                     (n, self.intlike()))
+        if self.r.random() < self.c.pos_p:
+            return (f"swop_{n[1]}", (n, self.pos()))
         return (f"swop_{n[1]}", (n,))
 
     def casehdr(self):
